@@ -50,7 +50,9 @@ CLAIMED["C02"] = dict(
 CLAIMED["C06"] = dict(
     text=("Proof over the abstract byte stream, for all read schedules: the three stream codecs' ReadNext return buffers that are exactly a window of the "
           "stream (Buffered: nothing lost, duplicated or reordered), frame messages as specified (varint length / brace fold / fixed chunk), never return a partial "
-          "message with an error, and report a clean io.EOF only when no message is in progress; WriteNext writes exactly the framed message; readAll conserves the body."),
+          "message with an error, and report a clean io.EOF only when no message is in progress; WriteNext writes exactly the framed message; readAll conserves the body. "
+          "WebSocket: the handler gets io.EOF exactly when the client closed normally (status 1000), an error for every other failed read (a dropped connection included), "
+          "and a method bound without a body receives one message and then io.EOF."),
     note=TRUST + "io.Reader/io.Writer/io.ReadFull/protowire are assumed contracts (interface contract of Read: any 0<=n<=len(p) with any error). Not decided: WebSocket framing (gobwas/ws), HTTP/2 transport ordering, gRPC-web base64 flushing, the proxy's goroutines; streamHTTP.readMsg and the gRPC frame reader are added as their contracts are discharged. Since then: streamHTTP.readMsg is proved against the StreamCodec interface contract (which all three codecs refine): message window, carry-over, no phantom message at a clean end, codec errors propagate; the gRPC frame reader/writer have partial contracts (slicing, frame window, truncated frame is an error, pooled buffers empty before use).",
     ref="DESIGN.md section 5 C06")
 CLAIMED["C08"] = dict(
